@@ -5,6 +5,7 @@
    with Encode(m) as information (C04 judges them). *)
 EXTENDS TraceCodecLib
 VARIABLE l
+HdrOf(m, M) == LET n == IF M.fam = "GSM" THEN 4 ELSE 3 IN SubSeq([k \in 1..n |-> m.mand[k].v[1]], 1, n)
 Check(e) ==
   IF e.op # "RT" THEN "ok"
   ELSE LET M == Msgs[MsgByName(e.m)]  m == [mand |-> e.mand, opt |-> e.opt] IN
@@ -14,6 +15,9 @@ Check(e) ==
        ELSE IF ~e.decok THEN "decode-of-own-encoding-fails"
        ELSE IF e.d.msg # e.m THEN "decodes-to-other-message"
        ELSE IF ~MsgEq(m, e.d, M) THEN "decoded-message-differs"
+       \* through the discriminator-dispatched entry points the decoded message also carries a header view: it equals the
+       \* original's, which (precondition of the statement) equals the body's own header octets
+       ELSE IF e.via = "plain" /\ M.fam \in {"GMM", "GSM"} /\ e.d.hdr # HdrOf(m, M) THEN "decoded-header-view-differs"
        ELSE LET d == Decode(M, Encode(M, m)) IN
             IF ~(d.ok /\ d.mand = m.mand /\ d.opt = m.opt) THEN "spec-roundtrip-fails"
             ELSE "ok"
